@@ -39,6 +39,8 @@ class PlantedSyntaxError(Exception):
 
 
 class Bad(Expr):
+    NO_SLOTS = True         # idx is the planting index, not the id of a recording callable
+
     def __init__(self, text, idx=0):
         self.text, self.idx = text, idx
 
